@@ -1,7 +1,7 @@
 (* C01 - dialogue flow follows Yarn's sequential semantics for every script and path.
    Property theorems only. *)
 From Coq Require Import List ZArith Bool.
-From YS Require Import Base.Sexp Yarn.Ast Yarn.Value Yarn.Eval Yarn.Runner Spec.FlowSpec Proofs.FlowProofs.
+From YS Require Import Base.Sexp Yarn.Ast Yarn.Value Yarn.Eval Yarn.Runner Spec.FlowSpec Proofs.FlowProofs Proofs.FuelProofs.
 Import ListNotations.
 
 (* one call of Next, from any state related to a specification state, for every dialogue, choice
@@ -31,6 +31,18 @@ Theorem C01_choice_irrelevant : forall d fm m c1 c2, last_opts m = None ->
   next d fm m c1 = next d fm m c2.
 Proof. exact next_choice_irrelevant. Qed.
 Print Assumptions C01_choice_irrelevant.
+
+(* fuel is a proof device: an answer given with some fuel is the answer with any larger fuel, so
+   "unless OutOfFuel" in the theorems above and below excludes only executions that never yield
+   (finding D7), and the fuel the wire layer passes cannot influence an observation *)
+Theorem C01_fuel_monotone : forall d f m c r m', next d f m c = (r, m') -> r <> NFuel ->
+  forall f', (f <= f')%nat -> next d f' m c = (r, m').
+Proof. exact next_fuel_mono. Qed.
+Print Assumptions C01_fuel_monotone.
+
+Theorem C01_fuel_irrelevant : forall d f1 f2 m c,
+  fst (next d f1 m c) <> NFuel -> fst (next d f2 m c) <> NFuel -> next d f1 m c = next d f2 m c.
+Proof. exact next_fuel_irrelevant. Qed.
 
 (* non-vacuity: options nested in an if nested in an option, a jump out of the nested body, an
    if-body ending in an option group; the machine and the specification agree on a full path *)
